@@ -3,14 +3,16 @@
    replacing an earlier section 11 if present."""
 import json, re
 res = json.load(open('/verif/seeded/RESULTS.json'))
-rows = ["Forty changes to gorilla/websocket (two per property) were written by sub-agents that were given nothing",
-        "but the text of one property and a scratch worktree of /repo, with the brief: break the property, keep the",
-        "package compiling and the pinned suite passing, make the failure need something specific, and demonstrate it",
-        "with a test. Each was confirmed (demo passes on the clean tree and fails with the change; suite passes with",
-        "it), stored under `seeded/<id>-<n>/` (`patch.diff`, `demo_test.go`, `meta.json`) and run against the property's",
-        "quick check with `tools/seedrun.sh` (apply to /repo, check, `git checkout -- .`). `tools/seedall.py` re-runs",
-        "them all and writes `seeded/RESULTS.json`, from which this table is generated. \"concrete\" = number of",
-        "VIOLATION lines whose replay is a failing input (the rest end in no-failing-input-found).",
+rows = ["%d changes to gorilla/websocket were written by sub-agents that were given nothing but the text of one" % len(res),
+        "property and a scratch worktree of /repo, with the brief: break the property, keep the package compiling and",
+        "the pinned suite passing, make the failure need something specific, and demonstrate it with a test. Round 1:",
+        "two per property (`seeded/Cxx-n`); round 2, after the machinery had been strengthened and three more defects",
+        "repaired: three per property, asked for mechanisms a reviewer would not think of first (`seeded/Cxx-r2n`).",
+        "Each was confirmed (demo passes on the clean tree and fails with the change; suite passes with it), stored",
+        "with `patch.diff`, `demo_test.go`, `meta.json`, and run against the property's quick check with",
+        "`tools/seedrun.sh` (apply to /repo, check, `git checkout -- .`). `tools/seedall.py` re-runs them all and",
+        "writes `seeded/RESULTS.json`, from which this table is generated. \"concrete\" = number of VIOLATION lines",
+        "whose replay is a failing input (the rest end in no-failing-input-found).",
         "",
         "| seed | change | caught by (first concrete violation) | VIOLATION lines (concrete) |",
         "|------|--------|--------------------------------------|----------------------------|"]
@@ -25,10 +27,12 @@ for r in res:
 missed = [r['seed'] for r in res if r.get('rc') == 0]
 rows.append("")
 rows.append("Missed on the final run: %s." % (', '.join(missed) if missed else 'none'))
+noconc = [r['seed'] for r in res if r.get('rc') != 0 and r.get('with_failing_input', 0) == 0]
+rows.append("Caught without a failing input (proof obligation or correspondence broken, or the harness could not complete): %s." % (', '.join(noconc) if noconc else 'none'))
 rows.append("""
-Eleven of the forty were missed, or caught only as a correspondence break without a failing input, by the
-checks as they stood when the seed arrived; each miss was a hole in a generator or a missing Spec clause, and
-was closed by strengthening the machinery (never by special-casing the seed):
+Round 1: eleven of the forty were missed, or caught only as a correspondence break without a failing input,
+by the checks as they stood when the seed arrived; each miss was a hole in a generator or a missing Spec
+clause, and was closed by strengthening the machinery (never by special-casing the seed):
 C06-2 (running sums that overflow int64 were not generated; this also exposed the defect fixed in b4843a2),
 C05-2 (faults were always permanent: transient timeouts added, justified by C05_errors_are_permanent),
 C02-1 (no frame of exactly 65536 bytes: length-boundary frames by every route), C09-1 (diverged gated runs
@@ -38,7 +42,25 @@ sources that report EOF with data), C07-1 (a panic under Upgrade is now a Spec f
 C14-1 (Accept values differing from the digest only in letter case), C15-1 (scripted replies with one
 no-context-takeover parameter: harness C15r), C18-1/C18-2 (caller Host header, credentials that need
 escaping, clauses 162-164), C19-1 (concurrent senders: harness C19c), C20-2 (clause 86 and the wire
-predicate in pooled runs).""")
+predicate in pooled runs).
+
+Round 2: of the sixty, fourteen were missed or caught without a failing input at first:
+C02-r23 (a flate.Writer pooled twice corrupts another connection's message: new harness C02m interleaves the
+write programs of several connections op by op and judges each connection on its own; a panic inside
+compress/flate is a Spec failure), C03-r23 (JoinMessages was not exercised: harness C03j), C04-r22 (1002 not
+sent when the application's own write deadline has passed: reader cases now run with a stale write deadline),
+C05-r22 (cut exactly where a read fills the application's buffer: deterministic family), C05-r23 (BFINAL
+stream followed by a 0x00 fragment and an empty final fragment), C07-r21 (a hang made ./check exit without
+a VIOLATION line: timeouts are handled and the hostile-header harness reports a hang after 5 s and skips the
+rest after three), C08-r22 (handler errors that are timeout net.Errors), C10-r21 (WriteControl queued behind
+a failing frame: clause 154 "the transport was used again after it had failed", harness C10c with frequent
+Conn.Close), C10-r23 (frames under a stale deadline: clause 74 on deadline values), C11-r23 (C19c now also
+runs under C11), C14-r21 (short reads of the entropy source: harness C14k), C16-r22 (read deadline left armed
+by Upgrade: clause 173), C19-r22 (a prepared close must be the last frame and later sends must fail).
+C06-r22 (ReadMessage pre-sizing its buffer from the declared length) makes the harness run out of memory or
+time: reported as a violation without a failing input; C07r's clause 30 catches the same idea (C07-r22) as a
+concrete input. C12-r23 (backslash handling in quoted strings) and C14-r21's syntactic half are caught by
+the model correspondence / the regenerated facts only.""")
 sec = open('/verif/tools/design_sec11.md').read().replace('SEEDED_TABLE', '\n'.join(rows))
 d = open('/verif/DESIGN.md').read()
 d = re.sub(r'## 11\. As built.*?(?=## Appendix A\.)', '', d, flags=re.S)
